@@ -6,7 +6,7 @@ UNITS = ratelimit.units('C20')
 BOUNDED = [
     {'name': 'C20.sim.window', 'script': 'bounded/c20_sim.py', 'timeout': 900,
      'bound': 'real limiter under a virtual clock and a deterministic seeded scheduler (one thread runs at a time, FIFO locks, optional '
-              'preemption at clock readings): 10 (thorough: 60) schedules of 1..4 streams, reads/writes, request sizes <= L/4 fixed or '
+              'preemption at clock readings): 10 (thorough: 200) schedules of 1..4 streams, reads/writes, request sizes <= L/4 fixed or '
               'mixed, think time, 20 (thorough: 60) virtual seconds; every window of transfers <= L*T + L*PAUSE_LIMIT + n*d_max and bytes '
               'intact; slow underlying streams with >= 2 streams are the class of known finding D11'},
     {'name': 'C20.multi.window', 'script': 'bounded/c20_multi.py', 'timeout': 300,
